@@ -40,6 +40,7 @@ import (
 	"github.com/tendermint/tendermint/libs/bits"
 	tmevents "github.com/tendermint/tendermint/libs/events"
 	"github.com/tendermint/tendermint/libs/log"
+	tmrand "github.com/tendermint/tendermint/libs/rand"
 	"github.com/tendermint/tendermint/libs/service"
 	"github.com/tendermint/tendermint/p2p"
 	tmconn "github.com/tendermint/tendermint/p2p/conn"
@@ -83,6 +84,7 @@ type gossipInput struct {
 	NParts    int          `json:"nparts"`
 	MaxRounds int          `json:"maxrounds"` // cap on fair rounds per run
 	WaitMS    int          `json:"wait_ms"`   // how long to wait for a released routine to park again
+	Seed      int64        `json:"seed"`      // seeds BitArray.PickRandom (libs/rand) per run
 }
 
 // ------------------------------------------------------------------ world (shared by all runs: deterministic)
@@ -243,6 +245,33 @@ type gossipParty struct {
 	name   string
 	cs     *State
 	ticker *gossipTicker
+	// +2/3 claims recorded in the party's vote sets (types.VoteSet.peerMaj23s is not observable): "h/r/type" -> block
+	claims map[string]string
+}
+
+func gossipClaimKey(h int64, r int32, t tmproto.SignedMsgType) string {
+	return fmt.Sprintf("%d/%d/%d", h, r, int(t))
+}
+
+// HeightVoteSet.SetPeerMaj23 keeps the first claim of a peer per vote set, and only for a round it has vote sets for
+func (p *gossipParty) noteClaim(h int64, r int32, t tmproto.SignedMsgType, bid types.BlockID) {
+	cs := p.cs
+	if cs.Height != h {
+		return
+	}
+	var vs *types.VoteSet
+	if t == tmproto.PrevoteType {
+		vs = cs.Votes.Prevotes(r)
+	} else {
+		vs = cs.Votes.Precommits(r)
+	}
+	if vs == nil {
+		return
+	}
+	k := gossipClaimKey(h, r, t)
+	if _, dup := p.claims[k]; !dup {
+		p.claims[k] = p.w.nameOfHash(bid.Hash)
+	}
 }
 
 func gossipNewParty(w *gossipWorld, name string) *gossipParty {
@@ -260,7 +289,7 @@ func gossipNewParty(w *gossipWorld, name string) *gossipParty {
 	tk := &gossipTicker{}
 	cs.SetTimeoutTicker(tk)
 	cs.scheduleRound0(&cs.RoundState)
-	return &gossipParty{w: w, name: name, cs: cs, ticker: tk}
+	return &gossipParty{w: w, name: name, cs: cs, ticker: tk, claims: map[string]string{}}
 }
 
 func (p *gossipParty) close() {
@@ -357,6 +386,7 @@ func (p *gossipParty) absorb(e gossipEl, from p2p.ID) {
 	case "strag":
 		cs.handleMsg(msgInfo{Msg: &VoteMessage{Vote: w.vote(cs.Height-1, tmproto.PrecommitType, e.R, e.Src, e.V)}, PeerID: p2p.ID(e.Src)})
 	case "claim":
+		p.noteClaim(cs.Height, int32(e.R), gossipVoteType(e.K), w.blockID(e.V))
 		cs.mtx.Lock()
 		_ = cs.Votes.SetPeerMaj23(int32(e.R), gossipVoteType(e.K), from, w.blockID(e.V))
 		cs.mtx.Unlock()
@@ -382,10 +412,14 @@ func gossipBits(ba *bits.BitArray) []int {
 	return out
 }
 
-func (w *gossipWorld) projVS(vs *types.VoteSet, height int64) map[string]interface{} {
+func (w *gossipWorld) projVS(vs *types.VoteSet, height int64, claim string) map[string]interface{} {
 	votes := map[string]string{}
 	by := [][]string{}
 	ent := []string{}
+	pm := []string{}
+	if claim != "" {
+		pm = append(pm, claim)
+	}
 	maj := "none"
 	for _, name := range w.names {
 		votes[name] = "none"
@@ -417,7 +451,7 @@ func (w *gossipWorld) projVS(vs *types.VoteSet, height int64) map[string]interfa
 			}
 		}
 	}
-	return map[string]interface{}{"votes": votes, "maj": maj, "by": by, "ent": ent}
+	return map[string]interface{}{"votes": votes, "maj": maj, "by": by, "ent": ent, "pm": pm}
 }
 
 func (w *gossipWorld) commitVotes(c *types.Commit) map[string]string {
@@ -437,7 +471,7 @@ func (w *gossipWorld) commitVotes(c *types.Commit) map[string]string {
 }
 
 // the party record [h, cn, parts, chain] from a RoundState (the node: the copy the REACTOR works with) and a block store
-func (w *gossipWorld) projParty(rs *cstypes.RoundState, bs sm.BlockStore) map[string]interface{} {
+func (w *gossipWorld) projParty(rs *cstypes.RoundState, bs sm.BlockStore, claims map[string]string) map[string]interface{} {
 	prop := map[string]interface{}{"r": -1, "v": "nil", "pol": -1}
 	if rs.Proposal != nil {
 		prop = map[string]interface{}{"r": int(rs.Proposal.Round), "v": w.nameOfHash(rs.Proposal.BlockID.Hash), "pol": int(rs.Proposal.POLRound)}
@@ -461,12 +495,12 @@ func (w *gossipWorld) projParty(rs *cstypes.RoundState, bs sm.BlockStore) map[st
 		if pvs != nil {
 			tracked = append(tracked, r)
 		}
-		pv = append(pv, w.projVS(pvs, rs.Height))
-		pc = append(pc, w.projVS(pcs, rs.Height))
+		pv = append(pv, w.projVS(pvs, rs.Height, claims[gossipClaimKey(rs.Height, int32(r), tmproto.PrevoteType)]))
+		pc = append(pc, w.projVS(pcs, rs.Height, claims[gossipClaimKey(rs.Height, int32(r), tmproto.PrecommitType)]))
 	}
 	lc := map[string]interface{}{"r": -1, "votes": w.commitVotes(nil)}
 	if rs.LastCommit != nil {
-		lc = map[string]interface{}{"r": int(rs.LastCommit.GetRound()), "votes": w.projVS(rs.LastCommit, rs.Height-1)["votes"]}
+		lc = map[string]interface{}{"r": int(rs.LastCommit.GetRound()), "votes": w.projVS(rs.LastCommit, rs.Height-1, "")["votes"]}
 	}
 	chain := []map[string]interface{}{}
 	for k := int64(1); k <= bs.Height(); k++ {
@@ -695,6 +729,31 @@ func (p *gossipPeer) Set(key string, v interface{}) {
 	p.kv[key] = v
 }
 
+// the switch's logger: Switch.BroadcastEnvelope logs "Broadcast" synchronously before it hands the message to one
+// goroutine per peer -- the number of broadcasts the reactor has ASKED for is known without waiting for anything
+type gossipCountLogger struct {
+	mtx sync.Mutex
+	n   int
+}
+
+func (c *gossipCountLogger) Debug(msg string, keyvals ...interface{}) {
+	if msg == "Broadcast" {
+		c.mtx.Lock()
+		c.n++
+		c.mtx.Unlock()
+	}
+}
+func (c *gossipCountLogger) Info(string, ...interface{})          {}
+func (c *gossipCountLogger) Error(string, ...interface{})         {}
+func (c *gossipCountLogger) With(...interface{}) log.Logger       { return c }
+func (c *gossipCountLogger) take() int {
+	c.mtx.Lock()
+	defer c.mtx.Unlock()
+	n := c.n
+	c.n = 0
+	return n
+}
+
 // ------------------------------------------------------------------ one run
 
 type gossipOut struct {
@@ -727,7 +786,8 @@ type gossipRun struct {
 	connected bool
 	annq      []proto.Message // announcements of the brain's (virtual) reactor, in order
 	annch     []byte
-	expectB   int    // broadcasts the node's reactor must have made (one per event it listens to)
+	bclog     *gossipCountLogger
+	expectB   int    // broadcasts the node's reactor has asked the switch for and the observer has not reported yet
 	undecided string // set when something was not observed in time: the run is abandoned, never judged
 }
 
@@ -763,12 +823,6 @@ func (g *gossipRun) hookBrain() {
 	})
 }
 
-func (g *gossipRun) hookNode() {
-	cs := g.node.cs
-	for _, ev := range []string{types.EventNewRoundStep, types.EventValidBlock, types.EventVote} {
-		_ = cs.evsw.AddListenerForEvent("verif-gossip-node", ev, func(tmevents.EventData) { g.expectB++ })
-	}
-}
 
 // the reactor works on a copy of the round state refreshed by its own ticker goroutine: wait until the copy is current
 func (g *gossipRun) waitFresh() {
@@ -793,6 +847,7 @@ func (g *gossipRun) waitFresh() {
 }
 
 func (g *gossipRun) waitBroadcasts() {
+	g.expectB += g.bclog.take()
 	deadline := time.Now().Add(g.wait)
 	for g.obs.count() < g.expectB {
 		if time.Now().After(deadline) {
@@ -804,10 +859,10 @@ func (g *gossipRun) waitBroadcasts() {
 }
 
 func (g *gossipRun) projNode() map[string]interface{} {
-	return g.w.projParty(g.conR.getRoundState(), g.node.cs.blockStore)
+	return g.w.projParty(g.conR.getRoundState(), g.node.cs.blockStore, g.node.claims)
 }
 func (g *gossipRun) projBrain() map[string]interface{} {
-	return g.w.projParty(&g.brain.cs.RoundState, g.brain.cs.blockStore)
+	return g.w.projParty(&g.brain.cs.RoundState, g.brain.cs.blockStore, g.brain.claims)
 }
 func (g *gossipRun) projPRS() map[string]interface{} {
 	if g.ps == nil {
@@ -864,6 +919,11 @@ func (g *gossipRun) recv(ch byte, m proto.Message, why string) {
 	if err != nil {
 		panic(err)
 	}
+	if c, ok := m.(*tmcons.VoteSetMaj23); ok {
+		if bid, err := types.BlockIDFromProto(&c.BlockID); err == nil {
+			g.node.noteClaim(c.Height, c.Round, c.Type, *bid)
+		}
+	}
 	g.conR.Receive(ch, g.peer, b)
 	g.drainNodeQueue()
 	g.waitFresh()
@@ -907,6 +967,7 @@ func (g *gossipRun) deliver(ss []gossipSent) {
 		case *VoteSetMaj23Message:
 			// the peer's Reactor.Receive for VoteSetMaj23Message
 			if cs.Height == m.Height {
+				g.brain.noteClaim(m.Height, m.Round, m.Type, m.BlockID)
 				if err := cs.Votes.SetPeerMaj23(m.Round, m.Type, p2p.ID("node"), m.BlockID); err == nil {
 					var ours *bits.BitArray
 					if m.Type == tmproto.PrevoteType {
@@ -1063,6 +1124,7 @@ func (g *gossipRun) nrsOfBrain() *tmcons.NewRoundStep {
 
 func (g *gossipRun) run() {
 	w := g.w
+	tmrand.Seed(g.in.Seed*1000003 + int64(g.c.ID))
 	g.node = gossipNewParty(w, "node")
 	g.brain = gossipNewParty(w, "peer")
 	defer g.node.close()
@@ -1072,7 +1134,8 @@ func (g *gossipRun) run() {
 	g.conR = NewReactor(g.node.cs, true)
 	g.conR.SetLogger(log.NewNopLogger())
 	g.sw = p2p.NewSwitch(config.P2P, nil)
-	g.sw.SetLogger(log.NewNopLogger())
+	g.bclog = &gossipCountLogger{}
+	g.sw.SetLogger(g.bclog)
 	g.sw.AddReactor("CONSENSUS", g.conR)
 	if err := g.conR.Start(); err != nil {
 		g.t.Fatal(err)
@@ -1080,7 +1143,6 @@ func (g *gossipRun) run() {
 	g.conR.mtx.Lock()
 	g.conR.waitSync = false
 	g.conR.mtx.Unlock()
-	g.hookNode()
 	g.peer = gossipNewPeer("peer", true)
 	g.obs = gossipNewPeer("observer", false)
 	g.obs.observe = true
